@@ -20,24 +20,35 @@ from . import core, util
 PID = "C01"
 MANIFEST = dict(
     text="Theorems decode_framing / hold_back_safe / hold_back_safe_pending / leftmost_match_is_true_delimiter / decode_headers / "
-         "helper_exact / C01_main_partial / chunking_independent about the Gallina model of MultipartDecoder (five states, the "
+         "helper_exact / C01_main_partial / chunking_independent / utf8_codec / decode_headers_text / field_text / C01_main / "
+         "C01_full_holds about the Gallina model of MultipartDecoder (five states, the "
          "delimiter, pending-delimiter and blank-line regexes as dedicated matchers, the windowed hold-back of the DATA state), of "
          "_parse_headers / parse_header / Headers and of the stream helpers: for every well-formed body and EVERY list of chunks "
          "(empty chunks and single bytes included) the decoder hands exactly each part's header event and bytes to the next layer, "
-         "and the helpers return exactly the encoded items; any two chunkings agree. The model is compared with the live decoder "
+         "and the helpers return exactly the encoded items; any two chunkings agree. C01_main: names and filenames are ANY text "
+         "without quote, backslash, CR, LF (every Unicode scalar value in UTF-8, every character below U+0100 in Latin-1; NUL, "
+         "VT, FF, FS-US, NEL, NBSP, U+2028, U+3000 included, in any position), header values any text without CR/LF that "
+         "str.strip() leaves alone; the events and items carry exactly that text; a field's text is the content decoded in the "
+         "charset, or read as Latin-1 when it is not valid UTF-8 (field_text); the model's strict UTF-8 decoder is proved to "
+         "invert the encoder and to accept only encodings (utf8_codec). C01_full_holds is the statement formerly kept unproved "
+         "as C01_full. The model is compared with the live decoder "
          "(every event, len(buffer) and state after every chunk), with parse_stream, parse_async_stream and Request.form on a WSGI "
          "environ and an ASGI receive channel.",
-    note="Modelled, not verified: re (the four patterns are transcribed as dedicated matchers), bytes/str methods, "
-         "SpooledTemporaryFile, str.lower beyond Latin-1 (cases keep header/parameter names within Latin-1), charsets other "
-         "than UTF-8 and Latin-1. C01_main_partial covers names, filenames and header values over printable ASCII; the full "
-         "statement (C01_full in Spec.v: any text without quote, backslash, CR, LF in the request's charset) is covered by the "
-         "correspondence check only.",
+    note="Modelled, not verified: re (the four patterns are transcribed as dedicated matchers), bytes/str methods (bytes.strip, "
+         "bytes.splitlines, str.strip's white-space set, str.partition/find/count/replace), CPython's UTF-8 codec (the model's "
+         "decoder and encoder are proved inverse to each other; that they are CPython's is checked by the correspondence), "
+         "SpooledTemporaryFile, str.lower beyond Latin-1 (header and parameter names are ASCII), charsets other than UTF-8 and "
+         "Latin-1. Domain of C01_main that is narrower than 'any text': header NAMES are visible ASCII without ':' (RFC tokens) "
+         "and not Content-Disposition again; a header VALUE must not begin or end with a character of str.isspace "
+         "(_parse_headers strips the decoded value with str.strip(), so 'abc' NBSP / U+2028 / NEL / FS-US / VT / FF at either "
+         "end comes back as 'abc': more than the optional white space SP / HTAB of RFC 7230, see ASSUMPTIONS); parameter values "
+         "are quoted, as every browser and the encoder of the property send them (an unquoted name=a<U+2028> loses the U+2028).",
     technique="Coq proof (invariant 'buffer ++ future = rest of the body' over all chunkings, hold-back safety, leftmost match = "
-              "true delimiter, header rendering round-trip, helper fold) + executable model/implementation correspondence",
+              "true delimiter, header rendering round-trip at the level of text and its encoding, UTF-8 codec round-trip both "
+              "ways, helper fold) + executable model/implementation correspondence",
     ref="5/C01")
 
-PARTIAL = ("C01_main_partial: names, filenames and header values over printable ASCII; non-ASCII names and charsets other than "
-           "utf-8/latin-1 are covered by the correspondence only (full statement: C01_full in C01/Spec.v)")
+PARTIAL = ""
 
 RULE = ("cases: (a) exhaustive: one field whose content ranges over all strings over {CR,LF,'-','b','x',' '} up to length 4 "
         "(every second one of length 4; thorough: 5 likewise, and a slice of 6) with boundary 'b' x every 2-cut partition of the body from the end of the header block to "
@@ -50,9 +61,16 @@ RULE = ("cases: (a) exhaustive: one field whose content ranges over all strings 
         "garbage; (d) header blocks, parse_header texts and safe_decode inputs of their own alphabets. "
         "non-trivial = a well-formed form with at least one part delivered in at least two chunks")
 TRUSTED = ["dedicated matchers for preamble_re / boundary_re / BLANK_LINE_RE / HEADER_CONTINUATION_RE, bytes.splitlines/strip, "
-           "str.strip/partition/lower (ASCII), rindex, strict UTF-8 decoding (C01/Model.v), validated by this correspondence"]
+           "str.strip (white-space set of str.isspace) / partition / lower (ASCII), rindex, strict UTF-8 decoding and encoding "
+           "(C01/Model.v utf8_decode, Lib/Utf8.v utf8: proved inverse to each other; that they are CPython's codec is validated "
+           "by this correspondence)"]
 ASSUMPTIONS = ["well-formed body: CRLF line breaks, no transport padding, contents and preamble free of '--'+boundary, boundary "
-               "free of CR/LF, header names and parameter names ASCII, charset utf-8 or latin-1",
+               "free of CR/LF, header names and parameter names ASCII, charset utf-8 or latin-1, the form encoded in the charset "
+               "the decoder is given, name and filename parameters quoted",
+               "header values do not begin or end with a character of str.isspace (U+0009-000D, U+001C-0020, U+0085, U+00A0, "
+               "U+1680, U+2000-200A, U+2028, U+2029, U+202F, U+205F, U+3000): _parse_headers strips the decoded value, e.g. "
+               "'X-Custom: abc' + NBSP is reported as 'abc'; leading and trailing white space is not counted as part of a "
+               "header value (names and filenames are not affected: they are inside quotes)",
                "the oracle (not the theorems) also claims exactness for contents in which '--'+boundary occurs only in the "
                "middle of a line (not at the start of the content, not after CR or LF): RFC 2046 delimiters start a line",
                "preamble and epilogue data are not part of the result (the Epilogue event's data does depend on the chunking)"]
